@@ -233,6 +233,9 @@ contract(
     requires=["self.bandwidth >= 1", "self._change_score.min_size >= 1", "self._change_score.min_size <= self.bandwidth",
               "self.min_detection_interval >= 1"],
     raises={"ValueError": "HASNAN(X) or n < 2 * self.bandwidth"},
+    modifies={"self.scores": "series:real[n]", "self._change_score._X": "=X", "self._change_score._is_fitted": "=True", "self._change_score.ghost_tok": "int",
+              "self._change_score.ghost_n": "=n", "self._change_score.ghost_p": "=p", "self._change_score.ghost_q": "int"},
+    returns="frame:int[K]",
     ensures={
         # changepoints are positions whose score (the transform's score of this X) exceeds the fitted threshold
         "changepoints_above_threshold": "forall(range(len(payload(result))), lambda q: 0 <= payload(result)[q] and payload(result)[q] < n and "
@@ -240,6 +243,11 @@ contract(
         "scores_are_the_transform": "len(payload(self.scores)) == n and forall(range(n), lambda t: payload(self.scores)[t] == "
                                     "ite(self.bandwidth <= t and t <= n - self.bandwidth, "
                                     "AGG3(self._change_score.ghost_tok, t - self.bandwidth, t, t + self.bandwidth), 0))",
+        # C04 for the moving window: strictly increasing; with a non-negative fitted threshold every changepoint lies in [bandwidth, n - bandwidth]
+        # (the zero-padded border never exceeds it -- the negative-threshold case is known finding KF1)
+        "increasing": "forall(range(len(payload(result)) - 1), lambda q: payload(result)[q] < payload(result)[q + 1])",
+        "in_scored_range": "implies(self.threshold_ >= 0, forall(range(len(payload(result))), lambda q: self.bandwidth <= payload(result)[q] and "
+                           "payload(result)[q] <= n - self.bandwidth))",
     },
     props=["C08", "C04", "C10"],
 )
